@@ -12,11 +12,11 @@ CHECKS = {
         cat="exploration", ref="5/C01",
         technique="bounded exhaustive enumeration of (algorithm, sequence pair, sub-range embedding, entry point) on the real code; cursor-automaton oracle + differential slice/sub-range comparison",
         text="Every pair of sequences in the stated small scopes (all pairs over 2-4 symbols up to length 6-10, every equality pattern up to total length 9-11) is diffed by all three algorithms through 6 entry points and 8 sub-range embeddings; each callback stream is checked by an independent cursor automaton. Exhaustive within scope, no sampling; defects here are shape-triggered (empty side, prefix, offset), which small scopes cover.",
-        note="Trusted: the harness's cursor automaton and window Index; element type u8; scopes are finite (see evidence bounds); Index implementations other than slices and offset windows are not explored."),
+        note="Trusted: the harness's cursor automaton and window Index; element type u8; scopes are finite (see evidence bounds); Index implementations explored: slices, offset windows that refuse outside reads, a wrapped-around VecDeque, one sequence object on both sides; heterogeneous element types (new: PartialEq<old>)."),
     "C02": dict(
         cat="exploration", ref="5/C02",
         technique="bounded exhaustive enumeration of inputs x capture entry points x every deadline-expiry point (virtual clock) on the real code; cursor-automaton + apply/invert oracle",
-        text="All pairs in the small scopes through capture_diff, capture_diff_deadline, capture_diff_slices(_deadline) and TextDiff::ops, with no deadline and, on a smaller scope, with the virtual clock expiring at every probe index; the ops are walked by an independent automaton, applied forwards and inverted, and the ratio clauses are evaluated.",
+        text="All pairs in the small scopes through capture_diff, capture_diff_deadline, capture_diff_slices(_deadline) and TextDiff::ops, with no deadline and, on a smaller scope, with the virtual clock expiring at every probe index; the ops are walked by an independent automaton, applied forwards and inverted, and the ratio clauses are evaluated. Part 'aliased-views': old and new are two views of ONE buffer (every pair of sub-slices of every small buffer, 6 entry points) and zero-sized items.",
         note="Trusted: harness oracles; virtual clock hook H1; carried indices of Delete/Insert are C11's business and are not examined here."),
     "C03": dict(
         cat="exploration", ref="5/C03",
@@ -31,7 +31,7 @@ CHECKS = {
     "C05": dict(
         cat="exploration", ref="5/C05",
         technique="bounded exhaustive enumeration of line-text pairs x algorithm x radius x header x str/bytes x Display/to_writer on the real code; independent unified-diff parser and strict patch applier as oracle",
-        text="Every pair of line texts from small line/terminator alphabets is rendered under all configurations; the output is parsed by an independent structure-driven parser and applied strictly to the old text; headers, positions, markers, context sizes and byte fidelity are checked. Failures explained by the listed known finding KF1 (decided by the H2 attribution hook, i.e. by call site) are reported as KNOWN-FINDING.",
+        text="Every pair of line texts from small line/terminator alphabets is rendered under all configurations; the output is parsed by an independent structure-driven parser and applied strictly to the old text; headers, positions, markers, context sizes and byte fidelity are checked; the byte sink's answers are enumerated too (writers taking 1 / 3 / all bytes per call, BufWriter, trait object, Interrupted), as are operation sequences on one formatter object (used with other settings first, rendered twice) and every way of consuming iter_hunks / iter_changes. Failures explained by the listed known finding KF1 (decided by the H2 attribution hook, i.e. by call site) are reported as KNOWN-FINDING.",
         note="Trusted: harness parser/applier; H2 attribution hook; known finding KF1 listed in known_findings.json."),
     "C06": dict(
         cat="exploration", ref="5/C06",
@@ -45,8 +45,8 @@ CHECKS = {
         note="Trusted: H1 hook placement (deadline_exceeded is the only clock access), counting element type; promptness constant calibrated with >= 2x slack."),
     "C08": dict(
         cat="fault_enumeration", ref="5/C08",
-        technique="exhaustive fault enumeration: a failing DiffHook whose k-th call errors, for every k, through 7 adapter stacks on the real code",
-        text="For every input in scope, every adapter stack and every call index k of the success run, the hook fails at call k; the diff must return exactly that error, make no further call, and have made exactly the prefix of the success run. Success runs are checked for a single, last finish and the default replace behaviour.",
+        technique="exhaustive fault enumeration: a failing DiffHook whose k-th call errors, for every k, through 9 adapter stacks on the real code; two-deviation part (deadline expiry x failing call); operation-sequence part (the same stack object handed to several diffs in a row)",
+        text="For every input in scope, every adapter stack and every call index k of the success run, the hook fails at call k; the diff must return exactly that error, make no further call, and have made exactly the prefix of the success run. Success runs are checked for a single, last finish and the default replace behaviour. Part 'reused-stack': every history of up to 1 (thorough: 2) successful earlier diffs through the SAME stack object, then every failing call index of the last diff.",
         note="Trusted: the harness's recording hooks."),
     "C09": dict(
         cat="exploration", ref="5/C09",
@@ -56,7 +56,7 @@ CHECKS = {
     "C10": dict(
         cat="model_checking", ref="5/C10",
         technique="explicit-state generation of every valid edit script (all paths of the (o,n) edit lattice with equal/delete/insert edges of every length) replayed against the real Compact/Replace adapters",
-        text="For every pair in scope every valid script — any order, any segmentation — is generated by an explicit-state walk of the edit lattice and replayed through Replace, Compact and Compact<Replace> into Capture; outputs are validated as scripts of equal cost, normal form and exact indices as stated.",
+        text="For every pair in scope every valid script — any order, any segmentation — is generated by an explicit-state walk of the edit lattice and replayed through Replace, Compact and Compact<Replace> into Capture, composed by value and by reference (8 compositions); outputs are validated as scripts of equal cost, normal form and exact indices as stated.",
         note="Trusted: script generator (the model) and C02/C09 automata; traces are replayed 1:1 on the implementation, there is no abstraction gap."),
     "C11": dict(
         cat="exploration", ref="5/C11",
@@ -66,17 +66,17 @@ CHECKS = {
     "C12": dict(
         cat="model_checking", ref="5/C12",
         technique="explicit-state enumeration of the grammar of valid alternating op lists, each replayed on the real group_diff_ops against an item-wise reference grouping",
-        text="All alternating op lists up to 5-7 ops with equal runs covering n, 2n, 2n+1 and all change kinds, for every radius 0..4, are grouped by the real function and compared with a reference; contiguity, once-only, edge-context and split clauses are evaluated explicitly.",
+        text="All alternating op lists up to 5-7 ops with equal runs covering n, 2n, 2n+1 and all change kinds, for every radius 0..4, are grouped by the real function and compared with a reference; contiguity, once-only, edge-context and split clauses are evaluated explicitly. On real diffs also operation sequences on one object: a TextDiff grouped with radius a then b, a UnifiedDiff used with radius a and then set to b.",
         note="Trusted: reference grouping; comparison ignores zero-length Equal ops (statement counts items)."),
     "C13": dict(
         cat="exploration", ref="5/C13",
         technique="bounded exhaustive enumeration of op shapes and whole diffs on the real expansion iterators against the direct definition",
-        text="Every op of the four kinds with small indices/lengths over sequences with distinguishable old/new values is expanded item-wise and slice-wise and re-applied to a capturing hook; whole-diff iteration is compared with the concatenation of per-op expansions.",
+        text="Every op of the four kinds with small indices/lengths over sequences with distinguishable old/new values is expanded item-wise and slice-wise and re-applied to a capturing hook; whole-diff iteration is compared with the concatenation of per-op expansions; both iterators of every op are also consumed in every way (nth / skip / step_by / take-then-rest / fold / count / last / peekable / find / zip / chain, size_hint at every position).",
         note="Trusted: harness definition of expansion."),
     "C14": dict(
         cat="exploration", ref="5/C14",
         technique="bounded exhaustive enumeration of core pairs x padding modes straddling the 100-token switch x tokenizers x algorithms on the real TextDiff; differential oracle against direct slice diffing",
-        text="Every core pair is embedded so token counts fall on both sides of the integer-mapping threshold; TextDiff ops must equal capture_diff_slices on the token slices; algorithm()/newline_terminated() echoes and the IdentifyDistinct id/equality bijection and ranges are checked for five integer types.",
+        text="Every core pair is embedded so token counts fall on both sides of the integer-mapping threshold; TextDiff ops must equal capture_diff_slices on the token slices; algorithm()/newline_terminated() echoes and the IdentifyDistinct id/equality bijection and ranges are checked for five integer types. Also: a caller-side DiffableStr whose equality is not byte equality, configurations reached by other setter sequences (every setter twice, config used before), and the from_* shortcuts.",
         note="Trusted: differential oracle (independent of tokenizer correctness)."),
     "C15": dict(
         cat="exploration", ref="5/C15",
@@ -91,12 +91,12 @@ CHECKS = {
     "C17": dict(
         cat="exploration", ref="5/C17",
         technique="bounded exhaustive enumeration of text pairs x tokenizers x algorithms x str/bytes on the real remapper and helpers; pointer-identity and reconstruction oracle",
-        text="Remapped slices must be pointer-identical substrings covering exactly the op's tokens; reconstruction of both texts; helpers never panic nor return empty slices.",
+        text="Remapped slices must be pointer-identical substrings covering exactly the op's tokens; reconstruction of both texts; helpers never panic nor return empty slices; the answers are independent of the order of remapping, of the constructor used, and of how iter_slices is consumed.",
         note="Trusted: harness oracle."),
     "C18": dict(
         cat="exploration", ref="5/C18",
         technique="bounded exhaustive enumeration of (word, candidate list, n, cutoff incl. every achievable ratio and its f32 neighbours) on the real get_close_matches against brute-force ranking",
-        text="All words/candidates over {a,b,e-acute} up to length 4-5, all candidate lists up to length 3-4 from a pool, all n and all critical cutoffs; result must equal the brute-force ranking computed from the harness's own LCS.",
+        text="All words/candidates over {a,b,e-acute} up to length 4-5, all candidate lists up to length 3-4 from a pool, all n and all critical cutoffs; result must equal the brute-force ranking computed from the harness's own LCS, for str and for the same texts as [u8].",
         note="Trusted: harness DP and f32 expression of the documented ratio."),
     "C19": dict(
         cat="exploration", ref="5/C19",
